@@ -153,8 +153,11 @@ def snap_vec(v, depth=0):
     try:
         elems = []
         for e in v:
-            if isinstance(e, S.Vector) and depth < 3:
-                elems.append(("nested", snap_any(e, depth + 1)))
+            if isinstance(e, S.Vector):
+                # a non-table vector holding vectors (what a ragged stack produces, with a
+                # warning) holds them by reference; whether that is "contents" is not fixed by
+                # any property, so only the fact is recorded, not the nested state
+                elems.append(("nested", type(e).__name__))
             else:
                 elems.append(V.tv(e))
         sch = v.schema()
